@@ -25,6 +25,8 @@ pub struct Hooks {
     pub spawn: fn(Box<dyn FnOnce() + Send + 'static>),
     /// simulated monotonic clock
     pub now: fn() -> Duration,
+    /// a decision the code under test leaves to the simulator (iteration order of a set...): one of `n`, 0 = the plain order
+    pub choose: fn(u32, usize) -> usize,
     /// io_uring opcode support as the simulated kernel of this run reports it (`None`: ask the real probe)
     pub op_supported: fn(u8) -> Option<bool>,
 }
@@ -176,6 +178,14 @@ pub extern "Rust" fn __compio_verif_point(site: u32) {
 #[unsafe(no_mangle)]
 pub extern "Rust" fn __compio_verif_yield() {
     yield_now()
+}
+
+#[unsafe(no_mangle)]
+pub extern "Rust" fn __compio_verif_choose(site: u32, n: usize) -> usize {
+    match hooks() {
+        Some(h) if n > 1 => (h.choose)(site, n).min(n - 1),
+        _ => 0,
+    }
 }
 
 #[unsafe(no_mangle)]
